@@ -1,14 +1,14 @@
-\* (B) deep pipeline: single-block batches (up to 5 batches + the final empty reply), rawBatches capacity 3, warmedUp
-\*     capacity 1: every fault at every position with the queues full behind it; download must return (BTerminates)
+\* (B) deep pipeline: single-block batches (up to 4 batches + the final empty reply), rawBatches capacity 2, warmedUp
+\*     capacity 2: every fault at every position with the queues full behind it; download must return (BTerminates)
 SPECIFICATION SpecB
 CONSTANTS
   MaxH = 0
   ExtraR = 0
-  MaxHB = 1
-  MaxRB = 5
+  MaxHB = 0
+  MaxRB = 4
   MaxBatch = 1
-  RawCap = 3
-  WarmCap = 1
+  RawCap = 2
+  WarmCap = 2
   Slack = {0}
 INVARIANT Converges
 INVARIANT HostileHarmless
